@@ -397,10 +397,11 @@ func (e *Engine) builtin(st *State, fr *Frame, name string, args []Val, rt types
 	switch name {
 	case "len":
 		a := args[0]
-		switch a.T.Underlying().(type) {
-		case *types.Map:
+		if mapTypeOf(a.T) != nil {
 			k(st, fr, Val{T: rt, L: []Term{e.mapCard(st, a)}})
 			return
+		}
+		switch a.T.Underlying().(type) {
 		case *types.Chan:
 			k(st, fr, Val{T: rt, L: []Term{e.chanLen(st, a)}})
 			return
